@@ -67,6 +67,13 @@ def lattice(tier):
                     continue
                 if x != 0 and abs(x) != float("inf"):
                     yield x
+    # exact rounding ties at every digit position (the branch boundaries of the formatters are of this form): 9...9.9...95
+    for a in range(0, 17):
+        for b in range(0, 17 - a):
+            s = ("9" * a or "0") + "." + "9" * b + "5"
+            for e in (0, -1, 1, -4, 4):
+                for sgn in (1.0, -1.0):
+                    yield float(s + "e%d" % e) * sgn
     for x in (0.0, 9999999.6, -9999999.6, 999999.5, 99999.95, 9999.9996, 0.001, 0.0009999999, 5e-8, 4.99999e-8, -5e-7, -0.01, 1e6, 1e7,
               123456789012345.6, 9999999999999999.0, 999999999999999.9, -999999999999999.9, 99999999999999.95, 1e15, 1e16, -1e14):
         yield x
@@ -228,7 +235,8 @@ def cards_part(run, bulk):
                     strs.append("" if k == "b" else (bulk.format_float8(v).strip() if k == "r" else str(v)))
                 clines = []
                 for i in range(0, len(strs), 8):
-                    head = "TGT" if i == 0 else "+"
+                    # a free-field continuation line may start with "+", a blank or directly with the comma
+                    head = "TGT" if i == 0 else ("+", " ", "")[(ci + i // 8) % 3]
                     clines.append(",".join([head] + strs[i:i + 8]) + (",+" if i + 8 < len(strs) else ""))
                 ctext = "OTHER,1,2\n" + "\n".join(clines) + "\nTGT,7,8.5\n"
                 try:
@@ -245,6 +253,25 @@ def cards_part(run, bulk):
                 if gotc is None or len(gotc) != 2 or trim(gotc[0]) != trim(got[0]) or list(gotc[1]) != [7, 8.5]:
                     run.violation("fixed-field and comma-separated forms of the same card read differently", dict(case, fixed=repr(got[0]),
                                   comma=repr(gotc), text=clines), {"fn": "comma"})
+                # short free-field lines (trailing blank fields left out, no continuation marker in field 10), with and without the name
+                slines = []
+                for i in range(0, len(strs), 8):
+                    chunk = list(strs[i:i + 8])
+                    if i + 8 < len(strs):
+                        while len(chunk) > 1 and chunk[-1] == "":
+                            chunk.pop()
+                    slines.append(",".join(["TGT" if i == 0 else ("+", " ", "")[(ci + i // 8 + 1) % 3]] + chunk))
+                stext = "OTHER,1,2\n" + "\n".join(slines) + "\nTGT,7,8.5\n"
+                for kn in (False, True):
+                    try:
+                        gs = bulk.rdcards(io.StringIO(stext), "tgt", return_var="list", keep_name=kn)
+                        gf = bulk.rdcards(io.StringIO(text), "tgt", return_var="list", keep_name=kn)
+                    except Exception as ex:
+                        run.violation("rdcards(keep_name=%s) raised %r on short free-field lines" % (kn, ex), dict(case, text=slines), {"fn": "comma"})
+                        continue
+                    if gs is None or gf is None or len(gs) != 2 or trim(gs[0]) != trim(gf[0]) or trim(gs[1]) != trim(gf[1]):
+                        run.violation("fixed-field and free-field (short lines, keep_name=%s) forms of the same card read differently" % kn,
+                                      dict(case, fixed=repr(gf), comma=repr(gs), text=slines), {"fn": "comma", "keep_name": kn})
         if ci < 2:
             run.sample({"card kinds": "".join(kinds), "fmt": fmt, "lines": nlines, "reader view": "".join(trimmed)})
 
